@@ -40,7 +40,12 @@ def _own_fields(ctx: Ctx, f: FuncInfo, g: Node, bind: Optional[Dict[str, Set[str
                 out |= {field_of(x) for x in srcs}
                 continue
         p = ctx.path_at(g, a)
-        if p is None:
+        if p is None or p.startswith("<ret:"):
+            # an expression: every registry it draws from (chain(...), helper results, unions)
+            from .shared import expr_sources
+
+            flds = {field_of(x) for x in expr_sources(ctx, g.func, g.env, inner)}
+            out |= {x for x in flds if x}
             continue
         if bind is not None and p.startswith("<") and p.strip("<>[]") in bind:
             out |= bind[p.strip("<>[]")]
